@@ -1,4 +1,5 @@
 import Driver.Ops.Tftp
+import Driver.Ops.Sqlite
 /-
 Line protocol: one JSON object per input line with a field "op"; one JSON object per
 output line: {"ok": <result>} or {"err": "<message>"}.
@@ -7,6 +8,7 @@ open Lean Driver
 
 def allOps : List (String × Op) :=
   Driver.Tftp.ops
+  ++ Driver.Sqlite.ops
 
 def handleLine (line : String) : String :=
   match Json.parse line with
